@@ -444,6 +444,8 @@ def skippable(body, an, loop, head, arr, store_bb):
         if not reads:
             continue
         # paths t ->* head inside the loop avoiding store_bb
+        if t == store_bb:
+            return False          # the pass edge leads straight into the block that stores
         seen = {t}
         st = [t]
         while st:
